@@ -11,3 +11,5 @@ import TeosVerif.Props.C14
 #print axioms Teos.C14.every_reply_handled_on_register
 #print axioms Teos.C14.classify_total
 #print axioms Teos.C14.flagging_call_sites_are_the_modelled_ones
+#print axioms Teos.C14.misbehaving_is_final
+#print axioms Teos.C14.flagging_establishes_the_flag
